@@ -98,6 +98,12 @@ def check_views(case):
         model = [next(m for m in model if eq(canon(m), o)) for o in obs.labels_of(ih)]
     classes = ['route:' + b['route'], 'depth:%d' % ih.depth, 'go' if b['go'] else 'static']
     views_agree(ih, model, 'constructed')
+    if b.get('_sources'):
+        # built from grow-only component indices: the hierarchy holds what it was given at construction, whatever they do later
+        for src in b.pop('_sources'):
+            src.append(9990)
+        views_agree(ih, model, 'constructed(from_index_items) after its grow-only component indices grew')
+        classes.append('component-sources-grown')
     frozen = []  # (static copy, model at that time)
     grown = reads_after_growth = 0
     if b['go']:
@@ -105,16 +111,31 @@ def check_views(case):
             s = st_['s']
             depth = ih.depth
             n = len(model)
-            if st_['read'] == 'values':
-                ih.values
-            elif st_['read'] == 'len':
-                len(ih)
-            elif st_['read'] == 'iter':
-                list(ih)
-            elif st_['read'] == 'lookup' and model:
-                ih.loc_to_iloc(tuple(list(ih)[0]))
-            elif st_['read'] == 'values_at_depth':
-                ih.values_at_depth(depth - 1)
+            # a single read (possibly the first one since the last growth); what it returns is judged at once
+            rd = st_['read']
+            if rd == 'values':
+                got = lib(lambda: [tuple(canon(x) for x in row) for row in ih.values.tolist()] if len(model) else [])
+                want = [tuple(canon(x) for x in m) for m in model]
+            elif rd == 'len':
+                got, want = lib(lambda: len(ih)), len(model)
+            elif rd == 'iter':
+                got, want = lib(lambda: [tuple(canon(x) for x in t) for t in ih]), [tuple(canon(x) for x in m) for m in model]
+            elif rd == 'lookup' and model:
+                got, want = lib(lambda: ih.loc_to_iloc(tuple(model[-1]))), len(model) - 1
+            elif rd == 'values_at_depth':
+                got, want = lib(lambda: [canon(x) for x in arr_list(ih.values_at_depth(depth - 1))]), [canon(m[depth - 1]) for m in model]
+            else:
+                got = want = None
+            if isinstance(got, Raised):
+                raise Failure('raised:%s' % got.cls, 'read %s after %d growth steps raised %r' % (rd, grown, got.exc), got.where)
+            if rd == 'values' and got is not None and len(got) == len(want):
+                ok = all(len(a) == len(b) and all(eq(x, y) for x, y in zip(a, b)) for a, b in zip(got, want))
+            elif isinstance(want, list) and got is not None:
+                ok = len(got) == len(want) and all((eq(a, b) if not isinstance(a, tuple) else (len(a) == len(b) and all(eq(x, y) for x, y in zip(a, b)))) for a, b in zip(got, want))
+            else:
+                ok = got == want
+            if not ok:
+                raise Failure('stale-read', 'read %s as the first observation after growth returned %s, the labels are %s' % (rd, short(got, 300), short(want, 300)))
             if not model:
                 break
             before = list(model)
